@@ -176,6 +176,16 @@ func c20CheckWith(c *Ctx, body []byte, useGzip bool, desc map[string]any, cf *c2
 	}
 }
 
+// c20LargeBody returns a body of n bytes with a marker at its start.
+func c20LargeBody(n int) []byte {
+	big := make([]byte, 0, n+2)
+	big = append(big, "<html><head></head><body>"...)
+	for len(big) < n {
+		big = append(big, byte('a'+len(big)%23), byte(0x80+len(big)%120))
+	}
+	return big[:n]
+}
+
 func clipBytes(b []byte) []byte {
 	if len(b) > 96 {
 		return b[:96]
@@ -200,6 +210,9 @@ func init() {
 						body = append(body, "abcdefghij"[len(body)%10])
 					}
 					body = append(body, tail...)
+				}
+				if d["kind"] == "large" {
+					body = c20LargeBody(int(d["bytes"].(float64)))
 				}
 				if d["kind"] == "window" {
 					body = c20WindowBody(int(d["offset"].(float64)), d["marker"].(string), int(d["high"].(float64)), d["tail"].(string))
@@ -340,6 +353,19 @@ func init() {
 			}
 		}
 		c20Check(c, nil, false, map[string]any{"kind": "empty"})
+		// large bodies (1 MiB, just above 8 MiB, just above 16 MiB; thorough: 64 MiB), marker early, plain and gzip:
+		// every byte behind the window is still there
+		sizes := []int{1<<20 + 1, 8<<20 + 4099, 16<<20 + 1}
+		if c.Thorough() {
+			sizes = append(sizes, 64<<20+7)
+		}
+		for _, n := range sizes {
+			big := c20LargeBody(n)
+			for _, g := range []bool{false, true} {
+				c20Check(c, big, g, map[string]any{"kind": "large", "bytes": n})
+				evals++
+			}
+		}
 		// other server configurations and page URLs (the tag then holds characters that are not ASCII; the
 		// content-script compression switch is none of filterHTML's business): a marker early, at the window edge, none
 		confs := []c20Conf{
